@@ -22,7 +22,8 @@ import c05_sweep as S
 from common import parse_sx, sx
 
 CLASS_OF_KIND = {"td": "TensorDict", "lazy": "LazyStackedTensorDict", "sub": "_SubTensorDict",
-                 "params": "TensorDictParams", "tc": "tensorclass", "nts": "NonTensorStack"}
+                 "params": "TensorDictParams", "tc": "tensorclass", "nts": "NonTensorStack",
+                 "shared": "TensorDict", "lazymix": "LazyStackedTensorDict"}
 
 
 def strip_locks(snap):
@@ -192,7 +193,7 @@ def sweep(run, drv, info, scratch_dir, thorough):
                 if not hasattr(cls, name):
                     continue
                 k = dict(k)
-                must_ok = k.pop("__must_ok__", False) and kind in ("td", "lazy", "tc")
+                must_ok = k.pop("__must_ok__", False) and kind in ("td", "lazy", "tc", "shared")
                 pred = preds.get((cname, name), ("absent", False, False, False))
                 tag = "hand" + ("+inplace" if k.get("inplace") else "") + ":" + ",".join(str(x)[:12] if isinstance(x, (str, tuple, int)) else type(x).__name__ for x in a)
                 obs = one_call(kind, name, a, k, tag)
